@@ -191,6 +191,10 @@ def _global_scan(ctx, res: RuleResult, fis) -> int:
             return None
 
         bad: list[tuple[ast.AST, str]] = []
+        for dec in fn.decorator_list:
+            dn = norm(dec.func if isinstance(dec, ast.Call) else dec)
+            if dn.split(".")[-1] in ("lru_cache", "cache", "cached_property", "memoize", "memoized"):
+                bad.append((dec, f"`@{dn}` keeps results (keyed by argument identity/equality) across calls: a later call can see objects an earlier call created or emptied"))
         for n in own_walk(fn):
             if isinstance(n, (ast.Global, ast.Nonlocal)):
                 bad.append((n, f"`{norm(n)}`: function rebinds shared state"))
@@ -1611,3 +1615,117 @@ def _assert_discharged(ctx, fi: FuncInfo, a: ast.Assert) -> tuple[bool, str]:
         if wn is not None and an is not None and cfg.dominates(wn, an):
             return True, "the traversal loop exits only when no node is unexplored, and a node is marked explored together with receiving its label"
     return False, "no loop shows that every node has received a label before this point"
+
+
+# --------------------------------------------------------------------------- R-REBUILD
+
+
+def _mapping_descriptor(fi: FuncInfo, e: ast.expr, depth=0):
+    """descriptor of an old->new label map: ('zip', A, B) for dict(zip(A, B)); ('enum', X) for {old: new for new, old in enumerate(X)}"""
+    if depth > 4 or e is None:
+        return None
+    if isinstance(e, ast.Name):
+        return _mapping_descriptor(fi, single_def(fi.node, e.id), depth + 1)
+    if isinstance(e, ast.Call) and isinstance(e.func, ast.Name) and e.func.id == "dict" and e.args:
+        z = e.args[0]
+        if isinstance(z, ast.Call) and isinstance(z.func, ast.Name) and z.func.id == "zip" and len(z.args) == 2:
+            return ("zip", norm(z.args[0]), norm(z.args[1]))
+    if isinstance(e, ast.DictComp) and len(e.generators) == 1:
+        g = e.generators[0]
+        if isinstance(g.iter, ast.Call) and isinstance(g.iter.func, ast.Name) and g.iter.func.id == "enumerate" and isinstance(g.target, ast.Tuple) and len(g.target.elts) == 2:
+            new, old = g.target.elts
+            if norm(e.key) == norm(old) and norm(e.value) == norm(new):
+                return ("enum", norm(g.iter.args[0]))
+        if isinstance(g.iter, ast.Call) and isinstance(g.iter.func, ast.Name) and g.iter.func.id == "zip" and len(g.iter.args) == 2 and isinstance(g.target, ast.Tuple):
+            a, b = g.target.elts
+            if norm(e.key) == norm(a) and norm(e.value) == norm(b):
+                return ("zip", norm(g.iter.args[0]), norm(g.iter.args[1]))
+    return None
+
+
+@rule("R-REBUILD")
+def r_rebuild(ctx) -> RuleResult:
+    res = RuleResult("R-REBUILD", "wherever a graph is rebuilt from another inside the pipeline, nodes and bond endpoints go through the same label map (or both keep their labels)")
+    fis = [f for f in all_public_closure(ctx) if f.name != "graph_from_molecule"]
+    n = 0
+    for fi in fis:
+        fn = fi.node
+        for name, defs in assigned_names(fn).items():
+            for d in defs:
+                v = d.value if isinstance(d, (ast.Assign, ast.AnnAssign)) else None
+                if not isinstance(v, ast.Call):
+                    continue
+                r = ctx.repo.resolve_dotted(fi.module, v.func)
+                if not (r and r[0] == "ext" and r[1] == "networkx.Graph" and not v.args):
+                    continue
+                addn = [c for c in own_walk(fn) if isinstance(c, ast.Call) and isinstance(c.func, ast.Attribute) and c.func.attr == "add_nodes_from" and isinstance(c.func.value, ast.Name) and c.func.value.id == name]
+                adde = [c for c in own_walk(fn) if isinstance(c, ast.Call) and isinstance(c.func, ast.Attribute) and c.func.attr == "add_edges_from" and isinstance(c.func.value, ast.Name) and c.func.value.id == name]
+                if not addn or not adde:
+                    continue
+                n += 1
+                nmap = _node_label_map(fi, addn[0].args[0])
+                emap = _edge_label_map(fi, adde[0].args[0])
+                if nmap is None or emap is None:
+                    raise AnalysisError(f"R-REBUILD: cannot see how `{short(addn[0], 60)}` / `{short(adde[0], 60)}` in {fi.qualname} name the atoms")
+                ok = nmap == emap
+                res.inst(fi.fq, f"{name}: nodes {nmap}, bond endpoints {emap}", "ok" if ok else "fail")
+                if not ok:
+                    res.fail(Finding("R-REBUILD", fi.module.rel, fi.qualname, norm(adde[0]),
+                                     f"the rebuilt graph names its atoms by {nmap} but its bond endpoints by {emap}: attributes move to other atoms while the bonds stay", line=adde[0].lineno))
+    res.counts = {"rebuild_sites": n}
+    return res
+
+
+def _node_label_map(fi: FuncInfo, e: ast.expr, depth=0):
+    """'same' if the inserted labels are the source graph's own labels, else a mapping descriptor"""
+    if depth > 5:
+        return None
+    if isinstance(e, ast.Name):
+        d = single_def(fi.node, e.id)
+        return _node_label_map(fi, d, depth + 1) if d is not None else None
+    if isinstance(e, ast.Call) and isinstance(e.func, ast.Name) and e.func.id in ("sorted", "list", "tuple", "reversed") and e.args:
+        return _node_label_map(fi, e.args[0], depth + 1)
+    if isinstance(e, ast.Call) and isinstance(e.func, ast.Attribute) and e.func.attr in ("nodes", "data", "items"):
+        return "same"
+    if isinstance(e, (ast.GeneratorExp, ast.ListComp)) and len(e.generators) == 1 and isinstance(e.elt, ast.Tuple) and len(e.elt.elts) == 2:
+        g = e.generators[0]
+        lab, dat = e.elt.elts
+        key = dat.slice if isinstance(dat, ast.Subscript) else None
+        if isinstance(key, ast.Name) and isinstance(lab, ast.Name):
+            if key.id == lab.id:
+                return "same"
+            # (new, m.nodes[old]) for new, old in enumerate(X)  /  for old, new in zip(A, B)
+            if isinstance(g.iter, ast.Call) and isinstance(g.iter.func, ast.Name) and isinstance(g.target, ast.Tuple) and len(g.target.elts) == 2:
+                t0, t1 = [norm(t) for t in g.target.elts]
+                if g.iter.func.id == "enumerate" and t0 == lab.id and t1 == key.id:
+                    return ("enum", norm(g.iter.args[0]))
+                if g.iter.func.id == "zip" and len(g.iter.args) == 2:
+                    if t0 == key.id and t1 == lab.id:
+                        return ("zip", norm(g.iter.args[0]), norm(g.iter.args[1]))
+                    if t1 == key.id and t0 == lab.id:
+                        return ("zip", norm(g.iter.args[1]), norm(g.iter.args[0]))
+        if isinstance(lab, ast.Name) and isinstance(dat, ast.Name) and isinstance(g.target, ast.Tuple) and [norm(t) for t in g.target.elts] == [lab.id, dat.id]:
+            return _node_label_map(fi, g.iter, depth + 1)
+    return None
+
+
+def _edge_label_map(fi: FuncInfo, e: ast.expr, depth=0):
+    if depth > 5:
+        return None
+    if isinstance(e, ast.Name):
+        d = single_def(fi.node, e.id)
+        return _edge_label_map(fi, d, depth + 1) if d is not None else None
+    if isinstance(e, ast.Call) and isinstance(e.func, ast.Name) and e.func.id in ("sorted", "list", "tuple") and e.args:
+        return _edge_label_map(fi, e.args[0], depth + 1)
+    if isinstance(e, ast.Call) and isinstance(e.func, ast.Attribute) and e.func.attr in ("edges", "data"):
+        return "same"
+    if isinstance(e, ast.Attribute) and e.attr == "edges":
+        return "same"
+    if isinstance(e, (ast.GeneratorExp, ast.ListComp)) and len(e.generators) == 1 and isinstance(e.elt, ast.Tuple) and len(e.elt.elts) >= 2:
+        a, b = e.elt.elts[:2]
+        tn = [norm(t) for t in (e.generators[0].target.elts if isinstance(e.generators[0].target, ast.Tuple) else [e.generators[0].target])]
+        if isinstance(a, ast.Name) and isinstance(b, ast.Name) and a.id in tn and b.id in tn:
+            return "same"
+        if isinstance(a, ast.Subscript) and isinstance(b, ast.Subscript) and isinstance(a.value, ast.Name) and isinstance(b.value, ast.Name) and a.value.id == b.value.id:
+            return _mapping_descriptor(fi, a.value)
+    return None
